@@ -1,0 +1,29 @@
+//! Verification hooks (only with the `verif_hooks` feature): lets a
+//! test harness supply an in-memory byte stream in place of the TCP
+//! connection `KafkaConnection::new` would otherwise open.
+
+use std::cell::RefCell;
+use std::io;
+
+/// The byte stream a harness provides for one connection.
+pub trait VerifStream: io::Read + io::Write + Send {
+    fn shutdown(&mut self) -> io::Result<()> {
+        Ok(())
+    }
+}
+
+/// Called with the "host:port" about to be connected to.
+pub type Connector = Box<dyn FnMut(&str) -> io::Result<Box<dyn VerifStream>>>;
+
+thread_local! {
+    static CONNECTOR: RefCell<Option<Connector>> = RefCell::new(None);
+}
+
+/// Installs (or with `None` removes) the connector of the calling thread.
+pub fn set_connector(c: Option<Connector>) {
+    CONNECTOR.with(|slot| *slot.borrow_mut() = c);
+}
+
+pub(crate) fn connect(host: &str) -> Option<io::Result<Box<dyn VerifStream>>> {
+    CONNECTOR.with(|slot| slot.borrow_mut().as_mut().map(|c| c(host)))
+}
